@@ -134,7 +134,7 @@ func inherited(c *Ctx, own []*RuleResult, pids ...string) []*RuleResult {
 
 func init() {
 	properties["C01"] = propDef{run: func(c *Ctx) *PropertyRun {
-		return pr("other", "Decided: (R12b–e) the cached size of every tree moves only with the structure — replace-on-equal paths of Put touch neither counter nor links and report 'nothing added', decrements are guarded by 'found', increments travel with allocate-and-link; (R11) every child-link store has its parent-link twin; (R10) the red-black rotations and fix-up arms are mirror images; (R15) LinkedHashMap table and order list gain/lose a key on the same paths; (R16) BidiMap pairing; (R24) HashMap is the Go map; (R20) TreeMap delegates each operation to the same-named tree operation; (R13a) every comparator-driven descent (Put, Get, Remove, lookup of all three trees) branches on the comparator's full int result with one orientation — lookups and insertions take the same way down (a narrowed or re-oriented verdict in one of them loses keys); (R32) the B-tree's hand-written slice surgery keeps its indices consistent: a shift by one opens a gap that is filled at that index after growing by one, or closes one before truncating by one, and a split partitions entries into [:k] / [k+1:] with entry k moving up and children divided at k+1; (R34) rotations preserve the in-order sequence of the subtree they re-hang (symbolic-heap replay of every path; catches mistakes that are symmetric in both directions, which the mirror rule cannot see); (R28) Remove replaces a node by one of its children only when the other is known nil, and a node with two children takes both key and value of its in-order neighbour, which is then the node unlinked (red-black Remove, AVL remove/removeMin); (R36) B-tree descents hop through the first or last child of the node they are on (or its search result) and delete replaces an internal entry by the last entry of the right-most leaf to its left, removing exactly that entry there; (R37) a borrow/merge in rebalance addresses the parent entry between the node and the sibling it works with (left: the index leftSibling returned; right: rightSibling's index - 1), takes the sibling's adjacent end entry and deletes what it moved. Not decided: that a lookup after an arbitrary history finds the last value — the correctness of the red-black / AVL / B-tree algorithms themselves (which case fires for which shape); a recolouring mistake that keeps links, counters and mirror arms consistent is not detected."+notBehaviour,
+		return pr("other", "Decided: (R12b–e) the cached size of every tree moves only with the structure — replace-on-equal paths of Put touch neither counter nor links and report 'nothing added', decrements are guarded by 'found', increments travel with allocate-and-link; (R11) every child-link store has its parent-link twin; (R10) the red-black rotations and fix-up arms are mirror images; (R15) LinkedHashMap table and order list gain/lose a key on the same paths; (R16) BidiMap pairing; (R24) HashMap is the Go map; (R20) TreeMap delegates each operation to the same-named tree operation; (R13a) every comparator-driven descent (Put, Get, Remove, lookup of all three trees) branches on the comparator's full int result with one orientation — lookups and insertions take the same way down (a narrowed or re-oriented verdict in one of them loses keys); (R32) the B-tree's hand-written slice surgery keeps its indices consistent: a shift by one opens a gap that is filled at that index after growing by one, or closes one before truncating by one, and a split partitions entries into [:k] / [k+1:] with entry k moving up and children divided at k+1; (R34) rotations preserve the in-order sequence of the subtree they re-hang (symbolic-heap replay of every path; catches mistakes that are symmetric in both directions, which the mirror rule cannot see); (R28) Remove replaces a node by one of its children only when the other is known nil, and a node with two children takes both key and value of its in-order neighbour, which is then the node unlinked (red-black Remove, AVL remove/removeMin); (R36) B-tree descents hop through the first or last child of the node they are on (or its search result) and delete replaces an internal entry by the last entry of the right-most leaf to its left, removing exactly that entry there, and the key it hands to rebalance locates that leaf under the key-searching sibling lookup (a successor's key, once moved up, resolves to the wrong side); (R37) a borrow/merge in rebalance addresses the parent entry between the node and the sibling it works with (left: the index leftSibling returned; right: rightSibling's index - 1), takes the sibling's adjacent end entry and deletes what it moved. Not decided: that a lookup after an arbitrary history finds the last value — the correctness of the red-black / AVL / B-tree algorithms themselves (which case fires for which shape); a recolouring mistake that keeps links, counters and mirror arms consistent is not detected."+notBehaviour,
 			c.rule("R12", ruleR12), c.rule("R11", ruleR11),
 			prefixFilter(c.rule("R10", ruleR10), "R10", "MIRROR: red-black rotations, fix-up arms, Put/lookup arms; AVL GetNode/put/remove arms", 13, "R10:trees/redblacktree.Tree.rotate", "R10:trees/redblacktree.Tree.insertCase", "R10:trees/redblacktree.Tree.deleteCase", "R10:trees/redblacktree.Tree.replaceNode", "R10:trees/redblacktree.Node.sibling", "R10:trees/redblacktree.Tree.Put", "R10:trees/redblacktree.Tree.lookup", "R10:trees/avltree.Tree.GetNode", "R10:trees/avltree.Tree.put", "R10:trees/avltree.Tree.remove"),
 			prefixFilter(c.rule("R15", ruleR15), "R15", "LINKED: LinkedHashMap table ↔ order list", 5, "R15a:maps/linkedhashmap", "R15b:maps/linkedhashmap", "R15c:maps/linkedhashmap", "R15w:maps/linkedhashmap", "R15d:maps/linkedhashmap"),
@@ -170,7 +170,7 @@ func init() {
 			}, "rbt", "dll")...)
 	}}
 	properties["C05"] = propDef{run: func(c *Ctx) *PropertyRun {
-		return pr("other", "Decided: (R19a) each stack pushes and pops at the same end of its list, each queue enqueues at the tail and dequeues at the head, Peek and Pop/Dequeue read the same index and Pop/Dequeue removes the index it read; (R19b) ring: every advance of start/end is paired with its wrap on every path, the ring slice is indexed only through start/end/(start+i)%capacity, Enqueue on a full ring evicts before writing and never otherwise, Dequeue/Peek on an empty ring change nothing and return (zero,false); (R12f) Full() ≡ Size()==capacity, Empty ≡ Size()==0; (R12b,c) the ring's size; (R20) the adapters' Size/Empty/Clear/Values delegate to the list; (R30) the array list under ArrayStack and ArrayQueue never pads or truncates (length algebra of C03); (R19a-values) Values() is the list's order for head removal and its exact reverse for tail removal. Not decided: the order of values as such (list semantics, C03's remainder); calculateSize arithmetic; agreement of ArrayStack.Values() order with removal order (reversed fill needs affine index reasoning). Inherited (substrate): the array list under ArrayStack/ArrayQueue/(heap) and the singly linked list under LinkedListStack/LinkedListQueue — length algebra and index guards; index walks, size counter, reset of the ends on emptying."+notBehaviour,
+		return pr("other", "Decided: (R19a) each stack pushes and pops at the same end of its list, each queue enqueues at the tail and dequeues at the head, Peek and Pop/Dequeue read the same index and Pop/Dequeue removes the index it read; (R19b-step) the ring's Enqueue and Dequeue replayed path by path with helpers expanded and field loads dated by version: the slot at the old end is written, end advances with its wrap, start advances with its wrap exactly when size == capacity, full ends true iff the new end meets start; Dequeue leaves an empty ring alone, else returns the slot at the old start, advances start with its wrap and clears full; (R19b) ring, shape clauses where the replay gives no verdict and for all other methods: every advance of start/end is paired with its wrap on every path, the ring slice is indexed only through start/end/(start+i)%capacity, Enqueue on a full ring evicts before writing and never otherwise, Dequeue/Peek on an empty ring change nothing and return (zero,false); (R12f) Full() ≡ Size()==capacity, Empty ≡ Size()==0; (R12b,c) the ring's size; (R20) the adapters' Size/Empty/Clear/Values delegate to the list; (R30) the array list under ArrayStack and ArrayQueue never pads or truncates (length algebra of C03); (R19a-values) Values() is the list's order for head removal and its exact reverse for tail removal. Not decided: the order of values as such (list semantics, C03's remainder); calculateSize arithmetic; agreement of ArrayStack.Values() order with removal order (reversed fill needs affine index reasoning). Inherited (substrate): the array list under ArrayStack/ArrayQueue/(heap) and the singly linked list under LinkedListStack/LinkedListQueue — length algebra and index guards; index walks, size counter, reset of the ends on emptying."+notBehaviour,
 			withSubstrates(c, []*RuleResult{
 				c.rule("R19", ruleR19), c.rule("R27", ruleR27), prefixFilter(c.rule("R30", ruleR30), "R30", "LENGTH: the array list under ArrayStack and ArrayQueue", 25, "R30:lists/arraylist"),
 				prefixFilter(c.rule("R12", ruleR12), "R12", "SIZE: ring counter, Full/Empty/Values of stacks and queues", 16, "R12b:queues/circularbuffer", "R12c:queues/circularbuffer", "R12e:queues/circularbuffer", "R12f:queues/", "R12f:stacks/"),
@@ -187,7 +187,7 @@ func init() {
 			}, "arraylist")...)
 	}}
 	properties["C07"] = propDef{run: func(c *Ctx) *PropertyRun {
-		return pr("other", "Decided: (R11) parent links mirror child links — a sentence of the statement itself: every child-link store in the three trees is paired with the parent-link store on the same path; (R21) the rebalancing machinery is wired on every path: red-black Put/Remove pass insertCase1/deleteCase1, the case chains hand over without dropping out; AVL balance factors are written only by the fix/rotation family, direct link changes report 'height changed', every reported change is answered by putFix/removeFix on the frame's own link and passed up, rotations are stored back; B-tree nodes that gained an entry go to split, nodes that lost one go to rebalance (or are a lending sibling / the collapsing root), borrow and merge move children with entries; (R32) insert/delete shifts and the split partition keep their indices consistent (no entry or child lost or duplicated); (R35) no path overwrites a field with a constant and then reads it back as the value to transfer (the colour hand-over `sibling.color = parent.color; parent.color = black` in the wrong order) — zero sites expected, guarded by a positive control; (R21 skeletons) the red-black insert/delete fix-ups with every case expanded: each path continues, absorbs or restructures only on the colour knowledge the algorithm prescribes, and Remove recolours the spliced child only at the root; (R42) after every rebalancing rotation of the AVL tree the stored balance factor of each touched node equals the height difference of its subtrees (symbolic-heap replay of putFix/removeFix in both directions, heights derived from the factors the path knows), and a fix-up after a recursive change under Children[i] is told the right side. Not decided: every numeric claim — comparator-call bounds, height bounds, min/max occupancy, equal leaf depth, colour invariants; these quantify over reachable shapes and no sound static argument in reach bounds them."+notBehaviour,
+		return pr("other", "Decided: (R11) parent links mirror child links — a sentence of the statement itself: every child-link store in the three trees is paired with the parent-link store on the same path; (R21) the rebalancing machinery is wired on every path: red-black Put/Remove pass insertCase1/deleteCase1, the case chains hand over without dropping out; AVL balance factors are written only by the fix/rotation family, direct link changes report 'height changed', every reported change is answered by putFix/removeFix on the frame's own link and passed up, rotations are stored back; B-tree nodes that gained an entry go to split, nodes that lost one go to rebalance (or are a lending sibling / the collapsing root), borrow and merge move children with entries; (R32) insert/delete shifts and the split partition keep their indices consistent (no entry or child lost or duplicated); (R35) no path overwrites a field with a constant and then reads it back as the value to transfer (the colour hand-over `sibling.color = parent.color; parent.color = black` in the wrong order) — zero sites expected, guarded by a positive control; (R21 skeletons) the red-black insert/delete fix-ups with every case expanded: each path continues, absorbs or restructures only on the colour knowledge the algorithm prescribes, and Remove recolours the spliced child only at the root; (R42) after every rebalancing rotation of the AVL tree the stored balance factor of each touched node equals the height difference of its subtrees (symbolic-heap replay of putFix/removeFix in both directions, heights derived from the factors the path knows), and a fix-up after a recursive change under Children[i] is told the right side; (R43) every path of the expanded red-black insert / delete case chains, replayed over an abstract tree built from the nodes and colours the path looks at, leaves equal black heights on both sides of every node it touched, the region's black height as it was (deletion: as it was meant to be), no red node with a red child, and hands exactly the expected defect to the chain's entry when it recurses — given a red-black tree with the one defect the chain repairs. Not decided: every numeric claim as such — comparator-call bounds, height bounds, min/max occupancy, equal leaf depth (R42/R43 are the inductive steps for balance factors and colours, not the induction nor the bound that follows from it); these quantify over reachable shapes and no sound static argument in reach bounds them."+notBehaviour,
 			c.rule("R21", ruleR21), c.rule("R21b", ruleR21b), c.rule("R42", ruleR42), c.rule("R43", ruleR43), c.rule("R11", ruleR11), c.rule("R32", ruleR32), c.rule("R35", ruleR35), c.rule("R37", ruleR37), controlFor(c, "R35"))
 	}}
 	properties["C08"] = propDef{run: func(c *Ctx) *PropertyRun {
